@@ -173,7 +173,9 @@ func runC15(r *mc.Run) {
 		}
 		statuses = append(statuses, 0x8000000000000002, 0x7fffffffffffffff, 0xfffffffffffffffe)
 	}
-	outLens := []uint32{uint32(len(quote)), 0, 1, uint32(bufSize), uint32(bufSize + 1), 0xffffffff, uint32(len(quote) - 1), 1024}
+	outLens := []uint32{uint32(len(quote)), 0, 1, uint32(bufSize), uint32(bufSize + 1), 0xffffffff, uint32(len(quote) - 1), 1024,
+		// lengths outside the buffer that agree with a fitting length in their low 16 / 24 / 31 bits
+		65536 + 1, 65536 + uint32(len(quote)), 65536 + uint32(bufSize), 2*65536 + uint32(len(quote)), 0xffff0000 + 100, 1<<24 + uint32(len(quote)), 1<<31 | uint32(len(quote)), 65536, 1 << 31}
 	var repA, repB [labi.TdReportSize]byte
 	copy(repA[:], world.Fill("td-report-a", labi.TdReportSize))
 	copy(repB[:], world.Fill("td-report-b", labi.TdReportSize))
